@@ -717,6 +717,15 @@ def hardfork_family(ctx, st):
         elif k == 4:
             db = {"V%d" % (i + 2): rng.randrange(0, 200) for i in range(4)}
         cases.append({"cfg": cfg, "h": rng.randrange(0, 250), "db": db, "chk": True})
+    # stored configurations written by a NEWER release (keys above V5), best block at fork-1 / fork / fork+1
+    for cfg in ([10, 20, 30, 40], [0, 0, 0, 0], [5, 5, 5, 5]):
+        full = {"V%d" % (i + 2): cfg[i] for i in range(4)}
+        for key in ("V6", "V7", "V10"):
+            for fork in (0, 1, 41, 50, 1000, 2 ** 63):
+                for h in sorted({max(0, fork - 1), fork, fork + 1}):
+                    cases.append({"cfg": cfg, "h": h, "db": dict(full, **{key: fork}), "chk": True})
+        cases.append({"cfg": cfg, "h": 60, "db": dict(full, V6=50, V7=60), "chk": True})
+        cases.append({"cfg": cfg, "h": 59, "db": dict(full, V6=70, V7=60), "chk": True})
     obs = run_engine(ctx, binpath, "TestVerifHardforkEngine", cases, "hardfork")
     if any(o["nfields"] != 4 for o in obs):
         st.fail("C19:hardfork-field-count", "HardforkConfig no longer has 4 fork heights", {"nfields": obs[0]["nfields"]})
@@ -738,6 +747,15 @@ def hardfork_family(ctx, st):
             citems.append("(%s, %s, %d, %s)" % (cfgs, db, c["h"], cbool(o["compat"])))
             csrc.append({"case": c, "obs": o})
             st.nontrivial.add(("C", o["compat"], len(c["db"])))
+            # direct predicate: a fork of a version this node does not know that is already active on the stored chain refuses the start
+            # (otherwise the node assigns its own highest version to heights the chain produced under the newer one)
+            newer = sorted((int(k[1:]), v) for k, v in c["db"].items() if int(k[1:]) > 5 and v <= c["h"])
+            if newer and o["compat"]:
+                st.fail("C19:start-accepted-on-chain-with-newer-active-fork",
+                        "the node (knows versions up to 5) starts on a chain DB whose stored hardfork V%d is active at the best block %d "
+                        "(fork height %d): height %d is version %d on that chain, this node assigns version %d to it — the version of a "
+                        "height is not stable across the restart" % (newer[-1][0], c["h"], newer[-1][1], c["h"], newer[-1][0], o["version"]),
+                        {"case": c, "obs": o, "best_relative_to_fork": c["h"] - newer[-1][1]})
             if o["compat"] and o["version"] != o["db_version"]:
                 st.fail("C19:compat-different-version", "CheckCompatibility accepts but stored and configured versions differ at h", {"case": c, "obs": o})
     for a, b in tables:
@@ -1208,7 +1226,8 @@ def store_family(ctx, st):
     hfc = []
     for cfg, stored, rd, best in [([10, 20, 30, 40], "", None, 25), ([10, 20, 30, 40], "", [10, 20, 30, 50], 35), ([10, 20, 30, 40], "", [10, 20, 30, 50], 45),
                                   ([10, 20, 30, 50], '{"V2":10,"V3":20,"V4":30}', None, 45), ([10, 20, 30, 40], '{"V2":10,"V3":20,"V4":30,"V5":40,"V6":44}', None, 43),
-                                  ([10, 20, 30, 40], '{"V2":10,"V3":20,"V4":30,"V5":40,"V6":44}', None, 44), ([30, 20, 10, 40], "", None, 5),
+                                  ([10, 20, 30, 40], '{"V2":10,"V3":20,"V4":30,"V5":40,"V6":44}', None, 44),
+                                  ([10, 20, 30, 40], '{"V2":10,"V3":20,"V4":30,"V5":40,"V6":44}', None, 45), ([30, 20, 10, 40], "", None, 5),
                                   ([0, 0, 0, 0], '{}', None, 0), ([1, 2, 3, 4], '{"V2":0}', None, 0)]:
         hfc.append({"kind": "HF", "Cfg": cfg, "CfgRead": rd, "Best": best, "DbJSON": stored})
     for _ in range(2 if quick else 200):
@@ -1300,6 +1319,11 @@ def store_family(ctx, st):
             st.fail("C19:hardfork-self-incompatible", "a validated configuration is reported incompatible with what it wrote itself", rep)
         if o.get("compat") and o["versions_read_written"][4] != o["versions_read_written"][5] and not c["DbJSON"]:
             st.fail("C19:compat-different-version", "restart accepted but the version at the best block differs from the one of the writing configuration", rep)
+        nw = sorted((int(k[1:]), v) for k, v in stored.items() if k[1:].isdigit() and int(k[1:]) > 5 and v <= c["Best"])
+        if nw and o.get("compat"):
+            st.fail("C19:start-accepted-on-chain-with-newer-active-fork",
+                    "ChainDB.Hardfork + CheckCompatibility accept a start on a chain DB whose stored hardfork V%d (height %d) is active at the "
+                    "best block %d although this node knows versions only up to 5" % (nw[-1][0], nw[-1][1], c["Best"]), rep)
         # direct predicate: a stored fork height that is already active (or the node's, if active) and differs must refuse the start
         for i in range(4):
             k = "V%d" % (i + 2)
